@@ -1375,6 +1375,18 @@ func (env *specEnv) locOf(e ast.Expr) []*locRef {
 				}
 				env.fail("pointee(%s): the dynamic type is not a pointer type known at the call site", exprString(t.Args[0]))
 			}
+			if id.Name == "anymapof" && len(t.Args) == 1 {
+				// every entry of every map of the given map type
+				mt := ex.eng.resolveType(t.Args[0], env.pkgPath)
+				if mt == nil {
+					env.fail("anymapof: unknown type %s", exprString(t.Args[0]))
+				}
+				if _, ok := mt.Underlying().(*types.Map); !ok {
+					env.fail("anymapof expects a map type")
+				}
+				dom, vals, ln := ex.mapClassesFor(mt)
+				return []*locRef{{classes: append(append([]*HeapClass{dom}, vals...), ln), region: func(key []*Term) *Term { return True }}}
+			}
 			if id.Name == "anymap" && len(t.Args) == 1 {
 				// every entry of every map of the argument's map type
 				x := env.eval(t.Args[0])
